@@ -236,6 +236,8 @@ def scale_of(*pts):
 def concl_cpp(a, b, p, q, t, d, nrm, exact=False):
     """clauses of C16_cpp_on_segment / _nearest / _signed_distance_* evaluated on implementation outputs"""
     bad = []
+    if not all(math.isfinite(x) for x in (q[0], q[1], t, d, nrm[0], nrm[1])):
+        return ['non-finite output for a non-degenerate segment: q=%r t=%r d=%r normal=%r' % (q, t, d, nrm)]
     L = math.hypot(b[0] - a[0], b[1] - a[1])
     sc = max(scale_of(a, b, p), L)
     far = math.hypot(p[0] - a[0], p[1] - a[1]) + L
@@ -399,11 +401,11 @@ def correspondence(ctx, model_ok):
         tol = 4e-12 * (scale_of(a, b, p, a2, b2, p2) + far) * max(1.0, far / L)
         if sign_unstable(a, b, p):
             continue
-        if abs(out2['d'][i] - out['d'][i]) > tol or abs(out2['t'][i] - out['t'][i]) > tol / L:
+        if not (abs(out2['d'][i] - out['d'][i]) <= tol and abs(out2['t'][i] - out['t'][i]) <= tol / L):
             ctx.fail('conclusion', 'signed distance / parameter not invariant under rotation %r: d %r -> %r, t %r -> %r'
                      % (mot, out['d'][i], out2['d'][i], out['t'][i], out2['t'][i]), case=dict(fn='cpp_rigid', a=a, b=b, p=p, motion=mot), concrete=True)
         qx, qy = rot(*mot, out['q'][i])
-        if abs(out2['q'][i][0] - qx) > tol or abs(out2['q'][i][1] - qy) > tol:
+        if not (abs(out2['q'][i][0] - qx) <= tol and abs(out2['q'][i][1] - qy) <= tol):
             ctx.fail('conclusion', 'closest point does not move with the rigid motion %r' % (mot,), case=dict(fn='cpp_rigid', a=a, b=b, p=p, motion=mot), concrete=True)
     ctx.count('sign_unstable_cases_skipped', unstable)
 
@@ -431,7 +433,7 @@ def correspondence(ctx, model_ok):
         # L2: magnitude is the distance to the polyline (dense scan over all edges)
         best = min(math.hypot(p[0] - ((1 - k / 200) * pts[e][0] + k / 200 * pts[e + 1][0]), p[1] - ((1 - k / 200) * pts[e][1] + k / 200 * pts[e + 1][1]))
                    for e in range(len(pts) - 1) for k in range(201))
-        if abs(dcl) > best + 1e-12 * (1 + best) or dcl not in ds:
+        if not (abs(dcl) <= best + 1e-12 * (1 + best)) or dcl not in ds:
             ctx.fail('conclusion', 'get_closest_distance=%r but the polyline has a point at distance %r' % (dcl, best),
                      case=dict(fn='closest', pts=pts, p=p), concrete=True)
     # smooth_distance: tie of the generated kernel + rigid invariance
@@ -458,7 +460,9 @@ def correspondence(ctx, model_ok):
     for i, (e0, e1, p, tol_) in enumerate(sd):
         sc = scale_of(e0[0], e0[1], e1[1], p) + 5
         # the sign of a1+a2 and the 1e-14 cut on crossN are discrete switches: skip rounding-level cases
-        if abs(sd_impl2[i] - sd_impl[i]) > 1e-10 * sc:
+        if not (math.isfinite(sd_impl[i]) and math.isfinite(sd_impl2[i])):
+            ctx.fail('conclusion', 'smooth_distance is not finite: %r / %r' % (sd_impl[i], sd_impl2[i]), case=dict(fn='smooth_distance_rigid', e0=e0, e1=e1, p=p, tol=tol_, motion=sd_rot[i][4]), concrete=True)
+        elif abs(sd_impl2[i] - sd_impl[i]) > 1e-10 * sc:
             a1 = 0.5 * ((e0[0][0] * (e0[1][1] - e1[0][1]) + e0[1][0] * (e1[0][1] - e0[0][1]) + e1[0][0] * (e0[0][1] - e0[1][1])))
             a2 = 0.5 * ((e1[0][0] * (e1[1][1] - e0[0][1]) + e1[1][0] * (e0[0][1] - e1[0][1]) + e0[0][0] * (e1[0][1] - e1[1][1])))
             if abs(a1 + a2) > 1e-9:
@@ -561,6 +565,10 @@ def correspondence(ctx, model_ok):
     evals += asm['n']
 
     ctx.log('assembly done')
+    evals += contact_mesh_checks(ctx)
+    ctx.log('Contact.py mesh-level functions done')
+    evals += mode_checks(ctx, cases, out, pairs, ls, mo, stable)
+    ctx.log('execution modes done')
     ctx.count('evaluations', evals)
     ctx.count('distinct_nontrivial', len(distinct))
     ctx.sample(dict(fn='cpp_distance', a=cases[0][0], b=cases[0][1], p=cases[0][2], impl=out['d'][0]))
@@ -735,15 +743,22 @@ def mesh_checks(ctx, model_ok):
                 py = lambda x, pars=pars: math.hypot(x[0] - pars[0], x[1] - pars[1]) - pars[2]
                 cq = lambda x, pars=pars: 'sphere %s %s %s %s %s' % (fl(x[0]), fl(x[1]), fl(pars[0]), fl(pars[1]), fl(pars[2]))
             cons = onp.array(I['LC'].compute_levelset_constraints(ls, jnp.array(U), mesh, qr, jnp.array(edges)))
+            cpts = onp.array(I['LC'].compute_contact_point_coordinates(jnp.array(U), mesh, qr, jnp.array(edges)))
             cons2 = onp.array(I['Penalty'].evaluate_contact_constraints(ls, jnp.array(U), mesh, qr, jnp.array(edges)))
             E = float(I['Penalty'].compute_total_penalty_contact_energy(ls, jnp.array(U), mesh, qr, jnp.array(edges), k))
             Eedges = [float(I['Penalty'].compute_edge_penalty_contact_energy(ls, mesh, jnp.array(U), qr, jnp.array(e), k)) for e in edges]
             n += 1
+            finite_ok = bool(onp.all(onp.isfinite(cons)) and onp.all(onp.isfinite(cons2)) and math.isfinite(E) and all(math.isfinite(x) for x in Eedges)
+                             and onp.all(onp.isfinite(cpts)))
             case = dict(fn='penalty', Nx=Nx, Ny=Ny, xExtent=xe, yExtent=ye, side=side, U=U.tolist(), degree=deg, levelset=which, pars=pars,
                         stiffness=k, directed=(len(spec) > 2))
+            if not finite_ok:
+                ctx.fail('conclusion', 'level-set constraint values / contact point coordinates / penalty energy contain NaN or inf', case=case, concrete=True)
+                continue
             # independent interpolation of the deformed sample points and independent evaluation of the energy
             etxt = []
             worst = 0.0
+            worst_pt = 0.0
             anyneg_impl = False
             anyneg = False
             Eind = 0.0
@@ -758,22 +773,25 @@ def mesh_checks(ctx, model_ok):
                     xq = (x0[0] + (x1[0] - x0[0]) * xi, x0[1] + (x1[1] - x0[1]) * xi)
                     phi = py(xq)
                     worst = max(worst, abs(phi - cons[ei][qi]), abs(phi - cons2[ei][qi]))
+                    worst_pt = max(worst_pt, abs(xq[0] - cpts[ei][qi][0]), abs(xq[1] - cpts[ei][qi][1]))
                     anyneg_impl = anyneg_impl or cons[ei][qi] < 0
                     anyneg = anyneg or phi < -1e-13
                     Ee += jac * wg[qi] * min(0.0, phi) ** 2
                     wphi.append('(%s, %s)' % (fl(wg[qi]), cq(xq)))
                 etxt.append('(%s, %s, [%s])' % (fl(k), fl(jac), '; '.join(wphi)))
                 Eind += k * Ee
-                if abs(Eedges[ei] - k * Ee) > 1e-12 * max(k * Ee, 1e-30) + 1e-300:
+                if not (abs(Eedges[ei] - k * Ee) <= 1e-12 * max(k * Ee, 1e-30) + 1e-300):
                     ctx.fail('conclusion', 'edge %d: compute_edge_penalty_contact_energy = %r but stiffness * sum_q jac w_q min(0, phi(x_q))^2 = %r'
                              % (ei, Eedges[ei], k * Ee), case=case, concrete=True)
+            if worst_pt > 1e-13 * (1 + scale_of(xe, ye)):
+                ctx.fail('conclusion', 'compute_contact_point_coordinates differs from the deformed sample points x + u at the rule points by %r' % worst_pt, case=case, concrete=True)
             if worst > 1e-12:
                 ctx.fail('conclusion', 'level-set constraint values differ from the obstacle function at the deformed sample points by %r' % worst, case=case, concrete=True)
             if not E >= 0:
                 ctx.fail('conclusion', 'penalty contact energy is negative: %r' % E, case=case, concrete=True)
             if (E == 0.0) != (not anyneg_impl) or (anyneg and E == 0.0):
                 ctx.fail('conclusion', 'penalty energy %r but %s sample point penetrates' % (E, 'a' if (anyneg_impl or anyneg) else 'no'), case=case, concrete=True)
-            if abs(E - Eind) > 1e-12 * max(Eind, 1e-30) + 1e-300:
+            if not (abs(E - Eind) <= 1e-12 * max(Eind, 1e-30) + 1e-300):
                 ctx.fail('conclusion', 'compute_total_penalty_contact_energy = %r but the independent sum over sample points is %r' % (E, Eind), case=case, concrete=True)
             if len(spec) > 2:
                 ctx.count('directed_interior_cut_cases_with_penetration', 1 if anyneg else 0)
@@ -814,9 +832,12 @@ def assembly_checks(ctx):
         segB = [[na + i, na + i + 1] for i in range(len(xb) - 1)]
         # integration side = B (first argument of integrate_with_mortar inside the assembly), neighbours = all A segments
         neigh = [list(range(len(segA))) for _ in segB]
-        disp = [(0.0, 0.0)] * len(coords)
+        # the assembly works on the CURRENT configuration coords + disp: split the same current positions into a reference part and a
+        # non-zero displacement part (a result that changes means one of the two surfaces ignores the displacement)
+        dsp = [(r.uniform(-0.3, 0.3), r.uniform(-0.3, 0.3)) for _ in coords]
         for rule_name, rule in I['rules'].items():
-            args = lambda cs: (jnp.array(cs), jnp.array(disp), jnp.array(segA), jnp.array(segB), jnp.array(neigh), rule)
+            args = lambda cs: (jnp.array([(c[0] - d[0], c[1] - d[1]) for c, d in zip(cs, dsp)]), jnp.array(dsp), jnp.array(segA), jnp.array(segB), jnp.array(neigh), rule)
+            args0 = lambda cs: (jnp.array(cs), jnp.array([(0.0, 0.0)] * len(cs)), jnp.array(segA), jnp.array(segB), jnp.array(neigh), rule)
             areas = [float(x) for x in MC.assemble_nodal_areas(*args(coords))]
             gaps = [float(x) for x in MC.assemble_area_weighted_gaps(*args(coords))]
             x, y, z = r.choice(PYTH)
@@ -824,13 +845,22 @@ def assembly_checks(ctx):
             rc = [rot(*mot, c) for c in coords]
             areas2 = [float(v) for v in MC.assemble_nodal_areas(*args(rc))]
             gaps2 = [float(v) for v in MC.assemble_area_weighted_gaps(*args(rc))]
-            n += 4
+            areas0 = [float(v) for v in MC.assemble_nodal_areas(*args0(coords))]
+            gaps0 = [float(v) for v in MC.assemble_area_weighted_gaps(*args0(coords))]
+            n += 6
             case = dict(fn='assembly', rule=rule_name, coords=coords, segA=segA, segB=segB, motion=mot)
-            if any(a != a for a in areas + gaps):
+            if any(not math.isfinite(a) for a in areas + gaps + areas2 + gaps2):
                 ctx.fail('conclusion', 'assembled nodal areas/gaps contain NaN', case=dict(case, nan=True), concrete=True)
                 continue
             if min(areas) < -1e-12:
                 ctx.fail('conclusion', 'negative nodal contact area %r' % min(areas), case=case, concrete=True)
+            if not (all(math.isfinite(v) for v in areas0 + gaps0) and max(abs(a - b) for a, b in zip(areas, areas0)) <= 1e-9 and max(abs(a - b) for a, b in zip(gaps, gaps0)) <= 1e-9):
+                ctx.fail('conclusion', 'assembled nodal areas/gaps depend on how the current positions are split into coords + disp (max differences %.3g / %.3g)'
+                         % (max(abs(a - b) for a, b in zip(areas, areas0)), max(abs(a - b) for a, b in zip(gaps, gaps0))), case=dict(case, clause='displacement'), concrete=True)
+            # contributions land on the nodes of the integration side only
+            nodesB = {i for sg in segB for i in sg}
+            if any(abs(a) > 1e-14 for i, a in enumerate(areas) if i not in nodesB):
+                ctx.fail('conclusion', 'nodal areas are assembled on nodes that do not belong to the integration side', case=dict(case, clause='scatter'), concrete=True)
             if max(abs(a - b) for a, b in zip(areas, areas2)) > 1e-9 or max(abs(a - b) for a, b in zip(gaps, gaps2)) > 1e-9:
                 ctx.fail('conclusion', 'assembled nodal areas/gaps change under the rigid motion %r' % (mot,), case=case, concrete=True)
             if not wavy:
@@ -844,6 +874,184 @@ def assembly_checks(ctx):
                     ctx.fail('conclusion', 'parallel surfaces: nodal gaps are not (signed distance) * nodal areas', case=case, concrete=True)
     return dict(n=n)
 
+
+
+# ----------------------------------------------------------------------------------------------- execution modes
+
+def mode_checks(ctx, cases, out, pairs, ls, mo, stable):
+    """the same kernels as ONE compiled call and as an un-compiled call must agree with the compiled batch (the library calls them
+    both ways: per edge inside python loops, and under vmap+jit inside the assembled functions)"""
+    I = impl()
+    jax, jnp = I['jax'], I['jnp']
+    n = 0
+    jd = jax.jit(I['EdgeCpp'].cpp_distance)
+    jc = jax.jit(I['EdgeCpp'].cpp)
+    for i in range(0, len(cases), max(1, len(cases) // ctx.n(25, 120))):
+        a, b, p, kind = cases[i]
+        if sign_unstable(a, b, p) and kind != 'exact':
+            continue
+        E, P = jnp.array([a, b]), jnp.array(p)
+        L = math.hypot(b[0] - a[0], b[1] - a[1])
+        far = math.hypot(p[0] - a[0], p[1] - a[1]) + L
+        tol = 0.0 if kind == 'exact' else 1e-13 * (scale_of(a, b, p) + far) * max(1.0, far / L)
+        for lab, d, (q, t) in (('single compiled call', float(jd(E, P)), jc(E, P)), ('un-compiled call', float(I['EdgeCpp'].cpp_distance(E, P)), I['EdgeCpp'].cpp(E, P))):
+            n += 1
+            vals = [d, float(t), float(q[0]), float(q[1])]
+            want = [out['d'][i], out['t'][i], out['q'][i][0], out['q'][i][1]]
+            tols = [tol, tol / L, tol, tol]
+            if not all(math.isfinite(v) and abs(v - w) <= tl for v, w, tl in zip(vals, want, tols)):
+                ctx.fail('conclusion', 'cpp/cpp_distance as a %s gives %r but inside the compiled batch %r (edge=(%r,%r), p=%r)' % (lab, vals, want, a, b, p),
+                         case=dict(fn='cpp', a=a, b=b, p=p, exact=(kind == 'exact'), mode=lab), concrete=True)
+    for i in range(0, len(pairs), max(1, len(pairs) // ctx.n(20, 100))):
+        a0, a1, b0, b1, kind = pairs[i]
+        A, B = jnp.array([a0, a1]), jnp.array([b0, b1])
+        LA, LB, tA, tB = pair_geometry(a0, a1, b0, b1)
+        for rn, rule in I['rules'].items():
+            if not stable[(i, rn)] or (rn == 'average' and mo['dn'][i] <= 1e-12):
+                continue
+            cond = conditioning(mo['nrm_' + rn][i], tA, tB)
+            isect = mo['isect_' + rn][i]
+            gsc = max(abs(isect[4]), abs(isect[5]), 1e-300) if all(math.isfinite(x) for x in isect[4:]) else 1.0
+            for fname, f, _, _ in INTEGRANDS:
+                w = mo['int_%s_%s' % (rn, fname)][i]
+                tolj = (1e-14 if kind == 'exact' else 1e-10 / cond) * max(LA, LB) * (1 + gsc * gsc)
+                key = 'single_%s_%s' % (rn, fname)
+                if key not in I:
+                    I[key] = jax.jit(lambda A_, B_, l_, rule=rule, f=f: I['MC'].integrate_with_mortar(A_, B_, rule, f, l_))
+                v1 = float(I[key](A, B, ls[i]))
+                v2 = float(I['MC'].integrate_with_mortar(A, B, rule, f, ls[i])) if fname in ('one', 'gap') else v1
+                n += 2
+                for lab, v in (('single compiled call', v1), ('un-compiled call', v2)):
+                    if not (math.isfinite(v) and abs(v - w) <= tolj):
+                        ctx.fail('conclusion', 'integrate_with_mortar[%s] (%s) as a %s gives %r but inside the compiled batch %r' % (fname, rn, lab, v, w),
+                                 case=dict(fn='mortar', rule=rn, a0=a0, a1=a1, b0=b0, b1=b1, l=ls[i], kind=kind, integrand=fname, mode=lab), concrete=True)
+    # the documented default smoothing length (relativeSmoothingSize = 1e-7) is what a call without the argument uses
+    nd = 0
+    for i, (a0, a1, b0, b1, kind) in enumerate(pairs):
+        if kind not in ('exact', 'partial', 'nested') or not stable[(i, 'from_a')] or nd >= ctx.n(12, 60):
+            continue
+        nd += 1
+        A, B = jnp.array([a0, a1]), jnp.array([b0, b1])
+        one = INTEGRANDS[0][1]
+        vdef = float(I['MC'].integrate_with_mortar(A, B, I['rules']['from_a'], one))
+        vexp = float(I['MC'].integrate_with_mortar(A, B, I['rules']['from_a'], one, 1e-7))
+        n += 1
+        if not (math.isfinite(vdef) and abs(vdef - vexp) <= 1e-13 * (1 + abs(vexp))):
+            ctx.fail('conclusion', 'integrate_with_mortar without relativeSmoothingSize gives %r, with the documented default 1e-7 it gives %r' % (vdef, vexp),
+                     case=dict(fn='mortar', rule='from_a', a0=a0, a1=a1, b0=b0, b1=b1, kind=kind, clause='default smoothing'), concrete=True)
+    ctx.count('execution_mode_comparisons', n)
+    return n
+
+
+# ----------------------------------------------------------------------------------------------- Contact.py on real meshes
+
+def contact_mesh_checks(ctx):
+    """Contact.py: neighbour search, closest signed distance to several deformed edges, closest edges / field weights / q-coordinates,
+    and MortarContact.get_closest_neighbors / get_facet_connectivities, on structured meshes with random displacement fields.
+    Oracle for one (edge, point) pair is EdgeCpp.cpp_distance / cpp_line themselves (their correctness is the subject of the theorems
+    and of the kernel correspondence); everything around them -- gathering deformed coordinates, interpolating sample points,
+    choosing among edges, sorting neighbours -- is recomputed independently with NumPy."""
+    import numpy as onp
+    I = impl()
+    jax, jnp = I['jax'], I['jnp']
+    Contact, MC, EdgeCpp = I['Contact'], I['MC'], I['EdgeCpp']
+    r = ctx.rng('contactmesh')
+    n = 0
+    for trial in range(ctx.n(4, 12)):
+        Nx, Ny = r.randrange(3, 7), r.randrange(2, 5)
+        xe, ye = (0.0, r.uniform(0.8, 3.0)), (0.0, r.uniform(0.4, 1.5))
+        mesh = I['Mesh'].construct_structured_mesh(Nx, Ny, xe, ye)
+        coords, conns = onp.array(mesh.coords), onp.array(mesh.conns)
+        preds = dict(bottom=lambda c: onp.all(c[:, 1] < 1e-12), top=lambda c: onp.all(c[:, 1] > ye[1] - 1e-12),
+                     left=lambda c: onp.all(c[:, 0] < 1e-12), right=lambda c: onp.all(c[:, 0] > xe[1] - 1e-12))
+        nameM, nameI = r.sample(sorted(preds), 2)
+        sM = onp.array(I['Surface'].create_edges(mesh.coords, mesh.conns, preds[nameM]))
+        sI = onp.array(I['Surface'].create_edges(mesh.coords, mesh.conns, preds[nameI]))
+        amp = r.choice([0.0, 0.03, 0.25]) * min(xe[1], ye[1])
+        U = onp.array([[r.uniform(-amp, amp), r.uniform(-amp, amp)] for _ in range(coords.shape[0])])
+        qr = I['QR'].create_quadrature_rule_1D(r.choice([1, 2, 3]))
+        xg = [float(x) for x in qr.xigauss]
+        k = r.randrange(1, len(sM) + 1)
+        case = dict(fn='contactmesh', Nx=Nx, Ny=Ny, xExtent=xe, yExtent=ye, surfaceM=nameM, surfaceI=nameI, U=U.tolist(), maxNeighbors=k, nq=len(xg))
+        cur = coords + U
+
+        def ecoords(edge):
+            el, ls_ = int(edge[0]), int(edge[1])
+            return cur[conns[el][ls_]], cur[conns[el][(ls_ + 1) % 3]]
+        il = onp.array(Contact.get_potential_interaction_list(jnp.array(sM), jnp.array(sI), mesh, jnp.array(U), k))
+        dists = onp.array(Contact.compute_closest_distance_to_each_side(mesh, jnp.array(U), qr, jnp.array(il), jnp.array(sI)))
+        ce, wts = Contact.compute_closest_edges_and_field_weights(mesh, jnp.array(U), qr, jnp.array(il), jnp.array(sI))
+        ce, wts = onp.array(ce), onp.array(wts)
+        qrec = onp.array(Contact.compute_q_coordinates_from_field_weights(mesh, jnp.array(U), jnp.array(ce), jnp.array(wts)))
+        qpts = onp.array(Contact.compute_q_coordinates(mesh, jnp.array(U), qr, jnp.array(sI)))
+        n += 5
+        if not all(onp.all(onp.isfinite(x)) for x in (dists, wts, qrec, qpts)):
+            ctx.fail('conclusion', 'Contact.py mesh-level functions return NaN/inf on a regular mesh', case=case, concrete=True)
+            continue
+        sc = 1 + scale_of(xe, ye) + amp
+        for ei, eI in enumerate(sI):
+            x0, x1 = ecoords(eI)
+            # neighbour search: the k main-side edges with the smallest node-to-node distance (ties at rounding level tolerated)
+            md = []
+            for eM in sM:
+                y0, y1 = ecoords(eM)
+                md.append(min(float((a - b) @ (a - b)) for a in (x0, x1) for b in (y0, y1)))
+            got = sorted(md[[tuple(e) for e in sM.tolist()].index(tuple(e))] for e in il[ei].tolist())
+            want = sorted(md)[:k]
+            if not all(abs(g - w) <= 1e-12 * sc * sc for g, w in zip(got, want)):
+                ctx.fail('conclusion', 'get_potential_interaction_list: integration edge %d got neighbours at squared distances %r, the %d nearest are at %r'
+                         % (ei, got, k, want), case=dict(case, clause='neighbour search'), concrete=True)
+            for qi, xi in enumerate(xg):
+                xq = x0 + (x1 - x0) * xi
+                if max(abs(qpts[ei][qi] - xq)) > 1e-13 * sc:
+                    ctx.fail('conclusion', 'compute_q_coordinates: sample point %d of edge %d is %r, expected x+u interpolated = %r' % (qi, ei, qpts[ei][qi].tolist(), xq.tolist()),
+                             case=dict(case, clause='q coordinates'), concrete=True)
+                ds = []
+                for eM in il[ei]:
+                    y0, y1 = ecoords(eM)
+                    ds.append(float(EdgeCpp.cpp_distance(jnp.array([y0, y1]), jnp.array(xq))))
+                best = min(abs(d) for d in ds)
+                d = float(dists[ei][qi])
+                if not (abs(abs(d) - best) <= 1e-12 * sc and any(abs(d - x) <= 1e-12 * sc for x in ds)):
+                    ctx.fail('conclusion', 'compute_closest_distance_to_each_side: edge %d point %d gives %r; signed distances to the listed deformed edges are %r'
+                             % (ei, qi, d, ds), case=dict(case, clause='closest distance'), concrete=True)
+                # closest edge and its field weight: the reconstructed point is the projection of the sample point on that edge's line
+                y0, y1 = ecoords(ce[ei][qi])
+                dsel = float(EdgeCpp.cpp_distance(jnp.array([y0, y1]), jnp.array(xq)))
+                tq = float(EdgeCpp.cpp_line(jnp.array([y0, y1]), jnp.array(xq))[1])
+                rec = y0 * (1 - tq) + y1 * tq
+                if not (abs(abs(dsel) - best) <= 1e-12 * sc and abs(float(wts[ei][qi]) - tq) <= 1e-12 and max(abs(qrec[ei][qi] - rec)) <= 1e-12 * sc):
+                    ctx.fail('conclusion', 'closest edge / field weight / reconstructed coordinates inconsistent at edge %d point %d: |d| of chosen edge %r (best %r), weight %r (line parameter %r)'
+                             % (ei, qi, abs(dsel), best, float(wts[ei][qi]), tq), case=dict(case, clause='closest edge weights'), concrete=True)
+        # mortar search on the same surfaces
+        fa, fb = onp.array(MC.get_facet_connectivities(mesh, jnp.array(sM))), onp.array(MC.get_facet_connectivities(mesh, jnp.array(sI)))
+        for edges_, segs in ((sM, fa), (sI, fb)):
+            for e_, sgm in zip(edges_, segs):
+                el, ls_ = int(e_[0]), int(e_[1])
+                if [int(sgm[0]), int(sgm[1])] != [int(conns[el][ls_]), int(conns[el][(ls_ + 1) % 3])]:
+                    ctx.fail('conclusion', 'get_facet_connectivities: side %r maps to nodes %r, expected %r' % (e_.tolist(), sgm.tolist(), [int(conns[el][ls_]), int(conns[el][(ls_ + 1) % 3])]),
+                             case=dict(case, clause='facet connectivities'), concrete=True)
+        nb = onp.array(MC.get_closest_neighbors(jnp.array(fa), jnp.array(fb), mesh, jnp.array(U), k))
+        n += 2
+        for bi, sb in enumerate(fb):
+            md = [min(float((cur[a] - cur[b]) @ (cur[a] - cur[b])) for a in sa for b in sb) for sa in fa]
+            got = sorted(md[j] for j in nb[bi])
+            want = sorted(md)[:k]
+            if not (len(set(int(j) for j in nb[bi])) == k and all(abs(g - w) <= 1e-12 * sc * sc for g, w in zip(got, want))):
+                ctx.fail('conclusion', 'get_closest_neighbors: segment %d got neighbours %r at squared distances %r, the %d nearest are at %r'
+                         % (bi, nb[bi].tolist(), got, k, want), case=dict(case, clause='mortar neighbour search'), concrete=True)
+    # Levelset.combined = pointwise minimum (intersection of the admissible regions)
+    from functools import partial
+    X = jnp.array([[r.uniform(-2, 2), r.uniform(-2, 2)] for _ in range(40)])
+    l1 = partial(I['Levelset'].plane, yLoc=0.3)
+    l2 = partial(I['Levelset'].sphere, xLoc=0.2, yLoc=-0.1, R=0.9)
+    cmb = onp.array(I['Levelset'].combined(X, l1, l2))
+    ref = onp.minimum(onp.array(l1(X)), onp.array(l2(X)))
+    n += 1
+    if not (onp.all(onp.isfinite(cmb)) and onp.max(onp.abs(cmb - ref)) == 0.0):
+        ctx.fail('conclusion', 'Levelset.combined is not the pointwise minimum of the two obstacle functions', case=dict(fn='contactmesh', clause='combined'), concrete=True)
+    ctx.count('contact_mesh_cases', n)
+    return n
 
 # ----------------------------------------------------------------------------------------------- protocol
 
